@@ -55,4 +55,20 @@ missing return — are excluded with it) -/
 theorem C10_Message_regenerated (p : Path) (recv : Message) (b : Bytes) : (run MessageF p (Message_dec p) recv b).NoPanic := by
   rw [Message_dec_is_model]; exact C10_noPanic_Message p recv b
 
+/-- the bytes a run of the regenerated encoder body appended to nothing are the model's encoding -/
+theorem Message_enc_ok (m : MessageSrc) (e : Bytes) (he : runEnc MessageSrc.get Message_MarshalMsg m [] = .ok e) :
+    Message.marshal m.tag m.ts m.record m.options = some e := by
+  rw [Message_MarshalMsg_is_model] at he
+  cases hm : Message.marshal m.tag m.ts m.record m.options with
+  | none => simp [appended, ERes.ofOption, hm] at he
+  | some e' => simp [appended, ERes.ofOption, hm] at he; simp [he]
+
+/-- **C02 over the regenerated `MarshalMsg` body**: what it emits for a representable message with a map record is exactly one msgpack
+value that satisfies the Forward v1 grammar for Message mode -/
+theorem C02_Message_regenerated (tag : Bytes) (ts : Int) (kvs : GoKVs) (opts : Option Options) (e : Bytes)
+    (htag : lenOK tag) (hts : inInt64 ts) (hrec : (GoVal.map kvs).WF) (hopts : optPtrWF opts)
+    (he : runEnc MessageSrc.get Message_MarshalMsg ⟨tag, ts, .map kvs, opts⟩ [] = .ok e) :
+    ∃ o, parse e = some (o, []) ∧ Spec.isMessage o = true :=
+  C02_Message tag ts kvs opts e htag hts hrec hopts (Message_enc_ok ⟨tag, ts, .map kvs, opts⟩ e he)
+
 end FV.Tie
